@@ -51,6 +51,7 @@ RULE = (
     "visibility difference), a deletion is non-trivial when the two recall vectors differ; distinct = distinct case key"
 )
 ASSUMPTIONS = [
+    "perfect-count family: identical predictions for every total number N of ground-truth instances in 1..110 (thorough 1..200), one animal per frame, plus 7x7, 14x7, 49x2 (rounding of the recall axis n/N depends on N)",
     "animals of one frame are well separated (cross-animal OKS underflows to exactly 0), each gt instance has >= 1 visible node, detection scores are pairwise distinct (no ties in the VOC ordering)",
     "at least one ground-truth frame has a predicted LabeledFrame (otherwise Evaluator raises 'Empty Frame Pairs' by design: nothing is evaluated)",
     "a mean over ZERO matched pairs (mOKS, mPCK, mean distance) and a visibility ratio with an empty denominator have no subject: NaN is accepted there and only there",
@@ -113,6 +114,17 @@ def _pred_points(pose, nan_node, dx, dy, vis):
 
 def build_case(item):
     """Alphabet indices -> explicit, self-contained case (coordinates, scores, tags)."""
+    if item[0] == "count":
+        # perfect predictions for N ground-truth instances in total (frames of `per` animals): the recall axis n/N must end
+        # at exactly 1 for every N ("average precision and recall 1 up to rounding")
+        _, nfr, per = item
+        frames = []
+        for f in range(nfr):
+            poses = [[(x + 300.0 * a, y) for (x, y) in POSES[2][0]] for a in range(per)]  # well separated copies
+            gt = [_gt_points(pz, None) for pz in poses]
+            pr = [{"pts": _pred_points(pz, None, 0.0, 0.0, "copy"), "score": round(0.30 + 0.0005 * (f * per + a), 6), "tag": f"f{f}a{a}:exact"} for a, pz in enumerate(poses)]
+            frames.append({"idx": f, "gt": gt, "pr": pr})
+        return {"nodes": 2, "frames": frames, "delete": None, "perfect": True, "no_deletions": True}
     n, k, nanpat, edits, vis, extra, order, f1 = item
     poses = POSES[n][:k]
     gt = [_gt_points(poses[a], nanpat[a]) for a in range(k)]
@@ -562,6 +574,9 @@ def work(part, shard):
         errs = check_base(case, obs)
         if errs:
             part.violation(case, " | ".join(errs))
+        if case.get("no_deletions"):
+            part.add("perfect_count_cases")
+            continue
         # ---- every single deletion
         base = recall_of(obs)
         for f, fr in enumerate(frames):
@@ -598,7 +613,10 @@ def run(ctx):
     global _ENV
     core.setup_torch()
     items = enumerate_items(ctx.tier)
+    nmax = 110 if ctx.tier == "quick" else 200
+    items += [("count", n, 1) for n in range(1, nmax + 1)] + [("count", 7, 7), ("count", 14, 7), ("count", 49, 2)]
     ctx.bounds = {
+        "perfect_count_family": f"perfect predictions for every total of 1..{nmax} ground-truth instances (one per frame), plus 7x7, 14x7 and 49x2",
         "frames_max": 2,
         "animals_max": 2 if ctx.tier == "quick" else 3,
         "nodes": [2, 3],
